@@ -148,7 +148,9 @@ func (s *IndexedStore) dataKey(id string) string {
 //
 // As such to list all handlers in ID sorted order use the /<indexesPrefix>/id/ directory.
 func (s *IndexedStore) indexKey(index, value string) string {
-	return path.Join(s.indexesPrefix, index, value)
+	// Do not path.Join the value: it would clean the values "." and ".."
+	// (valid object IDs) into keys outside of the index directory.
+	return path.Join(s.indexesPrefix, index) + "/" + value
 }
 
 func (s *IndexedStore) Get(id string) (o BinaryObject, err error) {
@@ -329,7 +331,7 @@ func (s *IndexedStore) ReverseListTx(tx ReadOnlyTx, index, pattern string, offse
 
 func (s *IndexedStore) list(tx ReadOperator, index, pattern string, offset, limit int, reverse bool) ([]BinaryObject, error) {
 	// List all object ids sorted by index
-	ids, err := tx.List(s.indexKey(index, "") + "/")
+	ids, err := tx.List(s.indexKey(index, ""))
 	if err != nil {
 		return nil, err
 	}
@@ -415,7 +417,7 @@ func (s *IndexedStore) RebuildTx(tx Tx) error {
 
 // deleteIndex deletes all indexes entries.
 func (s *IndexedStore) deleteIndex(tx Tx, index string) error {
-	entries, err := tx.List(s.indexKey(index, "") + "/")
+	entries, err := tx.List(s.indexKey(index, ""))
 	if err != nil {
 		return err
 	}
